@@ -336,6 +336,13 @@ impl<T: El> MapWorld<T> {
         Ok(obs)
     }
 
+    /// Run one op without the post-call monitors, reporting a panic separately (fault injection).
+    pub fn apply_faulty(&mut self, op: Op) -> Result<VResult<u64>, String> {
+        self.st = None;
+        self.ops_done += 1;
+        catch(|| self.do_op(op))
+    }
+
     // -----------------------------------------------------------------------------------------
     fn do_op(&mut self, op: Op) -> VResult<u64> {
         let k = op.key;
@@ -396,6 +403,11 @@ impl<T: El> MapWorld<T> {
             OpK::Index => {
                 let kk = Self::mkk(k);
                 let g = catch(|| self.call(|m| m[&kk].id()));
+                if let Err(p) = &g {
+                    if p.starts_with(hasher::FUSE_MSG) {
+                        panic!("{}", p); // an injected fault, not the documented panic
+                    }
+                }
                 match (&g, self.r.get(&lk)) {
                     (Ok(a), Some(b)) if a == b => {}
                     (Err(_), None) => {}
@@ -711,10 +723,11 @@ impl<T: El> MapWorld<T> {
         let was_split_nonempty = self.m.verif_stats().old.map_or(false, |o| o.0 > 0);
         self.call(|m| {
             m.retain(|k, v| {
-                tick(Cb::Closure);
                 let (a, b) = (k.id(), v.id());
-                harness(|| log.push((a, b)));
                 let kp = keep.contains(&a);
+                hasher::cb_note(a, !kp);
+                tick(Cb::Closure);
+                harness(|| log.push((a, b)));
                 if kp && mutate {
                     v.set((b + 1) % VMOD);
                 }
@@ -748,8 +761,9 @@ impl<T: El> MapWorld<T> {
         let before: Vec<(u32, u32)> = self.r.iter().map(|(&a, &b)| (a, b)).collect();
         self.call(|m| {
             let mut it = m.drain_filter(|k, v| {
-                tick(Cb::Closure);
                 let (a, b) = (k.id(), v.id());
+                hasher::cb_note(a, take.contains(&a));
+                tick(Cb::Closure);
                 harness(|| log.push((a, b)));
                 take.contains(&a)
             });
@@ -984,6 +998,11 @@ impl<T: El> MapWorld<T> {
         } else {
             catch(|| self.call(|m| m.reserve(n))).map(Ok)
         };
+        if let Err(p) = &outcome {
+            if p.starts_with(hasher::FUSE_MSG) {
+                panic!("{}", p); // an injected fault, not a capacity panic
+            }
+        }
         match outcome {
             Ok(Ok(())) => {
                 if must_fail {
